@@ -224,6 +224,10 @@ def main_check(pid, tier, seed, jobs=None, replay=None, limit=None):
                          indent=1)[:6000])
         known = load_known(pid)
         bad = [v for v in res["viol"] if v["mech"] not in known]
+        print("mechanisms:", sorted({v["mech"] for v in res["viol"]}),
+              "| not listed as known:", sorted({v["mech"] for v in bad}))
+        for v in bad[:5]:
+            print("  ", v["mech"], "::", str(v.get("msg"))[:700])
         if bad:
             print(f"VIOLATION property={pid} replay={replay}")
             return 1
